@@ -426,7 +426,8 @@ def check_case(case, ctx):
             req, tls, form, sel, mutated = _build_request(objs, case["req"])
             cfg = _cfg(root, full, 180)
             # structured requests are complete by construction: the client then keeps the connection open
-            r = drive.serve(cfg, req, tls=tls, realfd=full, open_conn=form is not None)
+            r = drive.serve(cfg, req, tls=tls, realfd=full, open_conn=form is not None,
+                            segment=[None, 1, 7, 1460][case["req"]["target"] % 4])
             ctx.label("single", "form:%s" % (form or "raw"), "mut:%s" % (case["req"]["mut"] if form else "raw"))
             if form is not None and case["req"].get("bare") and clients.FORMS[form][1] in ("http", "head", "wap"):
                 ctx.label("http-without-header-lines")
